@@ -564,7 +564,7 @@ def program(texts):
 # macro are compared with a committed digest (they are modelled by hand: a change means "re-inspect").
 # ---------------------------------------------------------------------------------------------
 MACROS_RS = os.path.join("crates", "toml", "src", "macros.rs")
-CODE_DIGEST = "07d69e9f11cbb493bad222f1f91a82af3bb58b21"
+CODE_DIGEST = "b1cd657d864995e5554044093eb432342b3199fd"
 
 
 def strip_comments(src):
@@ -664,13 +664,36 @@ def invocations(body):
         j = match_close(body, o)
         out.append(body[o + 1:j]); i = o + 1
 
+def despace(text):
+    """white space kept only between two word characters (layout does not matter)"""
+    t = re.sub(r"\s+", " ", text).strip()
+    return re.sub(r"(?<![A-Za-z0-9_]) | (?![A-Za-z0-9_])", "", t)
+
+
+def canon_vars(text):
+    """rename the macro metavariables ($name, not $crate) in order of first appearance: $v0, $v1, ..."""
+    names = {}
+
+    def ren(m):
+        if m.group(1) == "crate":
+            return m.group(0)
+        names.setdefault(m.group(1), "v%d" % len(names))
+        return "$" + names[m.group(1)]
+    return re.sub(r"\$([A-Za-z_][A-Za-z0-9_]*)", ren, text)
+
+
+V = r"\$v\d+"
+
+
 def classify(body):
-    b = " ".join(body.split())
+    """kind of a rule body (+ the arguments of its re-invocation), read from the body spelled without layout and with
+    the metavariables numbered by the rule's head"""
+    b = despace(body)
     inv = invocations(body)
     last = show_seq(parse_seq(inv[-1]), True) if inv else ""
     if b == "":
         return "nothing"
-    if re.fullmatch(r"\$crate::toml_internal!\(.*\);", b) and len(inv) == 1:
+    if re.fullmatch(r"\$crate::toml_internal!\(.*\);", b, re.S) and len(inv) == 1:
         return "invoke " + last
     if "insert_table_toml(" in b:
         return "tabheader"
@@ -678,19 +701,19 @@ def classify(body):
         return "arrheader"
     if "insert_toml(" in b and "Value::Datetime(" in b:
         return "insertdt " + last
-    if "insert_toml(" in b and "toml_internal!(@value $v)" in b:
+    if "insert_toml(" in b and re.search(r"toml_internal!\(@value" + V + r"\)", b):
         return "insert " + last
-    if "$root.push($crate::toml_internal!(@value $v))" in b:
+    if re.search(V + r"\.push\(\$crate::toml_internal!\(@value" + V + r"\)\)", b):
         return "push " + last
-    if "$root.push($crate::Value::Datetime(" in b:
+    if re.search(V + r"\.push\(\$crate::Value::Datetime\(", b):
         return "pushdt " + last
-    if b == "stringify!($ident)":
+    if re.fullmatch(r"stringify!\(" + V + r"\)", b):
         return "pathident"
-    if b == "$quoted":
+    if re.fullmatch(V, b):
         return "pathquoted"
-    if "let mut table = $crate::Value::Table(" in b and b.rstrip("}").rstrip().endswith("table"):
+    if "let mut table=$crate::Value::Table(" in b and re.search(r";table$", b.rstrip("}")):
         return "valtable " + last
-    if "let mut array = $crate::value::Array::new();" in b and "$crate::Value::Array(array)" in b:
+    if "let mut array=$crate::value::Array::new();" in b and "$crate::Value::Array(array)" in b:
         return "valarray " + last
     if "NAN.copysign(-1.0)" in b:
         return "const f:-nan"
@@ -700,11 +723,12 @@ def classify(body):
         return "const f:-inf"
     if "INFINITY" in b:
         return "const f:inf"
-    if b == "$crate::macros::number(-$v)":
+    if re.fullmatch(r"\$crate::macros::number\(-" + V + r"\)", b):
         return "neg"
-    if "into_deserializer($v)" in b and "deserialize(de).unwrap()" in b:
+    if re.search(r"into_deserializer\(" + V + r"\)", b) and "deserialize(de).unwrap()" in b:
         return "other"
     return "unknown:" + b[:60]
+
 
 def rules_of(src):
     src = strip_comments(src)
@@ -731,12 +755,30 @@ def rules_of(src):
         m = re.match(r"\s*;", text[i:])
         if m:
             i += len(m.group(0))
-        rules.append(show_seq(parse_seq(head), False) + " => " + classify(body))
-        bodies.append(" ".join(body.split()))
-    helpers = " ".join(src[end + 1:].split())
+        # metavariables numbered in order of first appearance in the rule (head first): their names do not matter
+        both = canon_vars(head + "\x00" + body)
+        chead, cbody = both.split("\x00", 1)
+        rules.append(show_seq(parse_seq(chead), False) + " => " + classify(cbody))
+        bodies.append(despace(cbody))
+    helpers = despace(src[end + 1:])
     code = hashlib.sha1(("\n".join(bodies) + "\n" + helpers).encode()).hexdigest()
     return rules, code
 
+
+def canon_rules_line(line):
+    """a `n=.. det=.. rules=<hex>` line with the metavariables of every rule numbered in order of first appearance"""
+    f = dict(FIELD_RULES.findall(line))
+    if "rules" not in f:
+        return line
+    rules = [canon_vars(r) for r in bytes.fromhex(f["rules"]).decode("utf-8", "replace").split(" ;; ")]
+    return "n=%s det=%s rules=%s" % (f.get("n"), f.get("det"), " ;; ".join(rules).encode().hex())
+
+
+FIELD_RULES = re.compile(r"(\w+)=(\S+)")
+
+
+def rules_equal(source_line, model_line):
+    return canon_rules_line(source_line) == canon_rules_line(model_line)
 
 
 def source_rules_line():
@@ -936,9 +978,9 @@ def compare(case, model_line, _core_line):
             line, code = source_rules_line()
         except Exception as e:                        # the source no longer has the shape the reader understands
             return "cannot read the rules of toml_internal! from %s: %r" % (MACROS_RS, e)
-        if line != model_line:
-            ours = bytes.fromhex(fields(line).get("rules", "")).decode().split(" ;; ")
-            theirs = bytes.fromhex(fields(model_line).get("rules", "")).decode("utf-8", "replace").split(" ;; ")
+        if not rules_equal(line, model_line):
+            ours = bytes.fromhex(fields(canon_rules_line(line)).get("rules", "")).decode().split(" ;; ")
+            theirs = bytes.fromhex(fields(canon_rules_line(model_line)).get("rules", "")).decode("utf-8", "replace").split(" ;; ")
             diff = [(a, b) for a, b in zip(ours, theirs) if a != b][:1]
             return "the rules of toml_internal! differ from Model/Macro.v `rules` (%d vs %d rules)%s" % (
                 len(ours), len(theirs), ": source `%s` / model `%s`" % diff[0] if diff else "")
